@@ -407,6 +407,10 @@ func (vc *VC) globalGet(s *State, g *ssa.Global) Term {
 	if vc.P.globalConst(g) {
 		first := !vc.declSet[sym(name)]
 		c := vc.declare(sym(name), vc.S.sortOf(t))
+		if first && !strings.HasPrefix(g.Pkg.Pkg.Path(), modPath) && types.Identical(t, types.Universe.Lookup("error").Type()) {
+			vc.addAssume("true", not(app("(_ is dnil)", c)))
+			vc.assume("error sentinel of an external package is non-nil: " + g.Pkg.Pkg.Name() + "." + g.Name())
+		}
 		if first {
 			// a never-reassigned package variable with a constant initialiser keeps that value
 			if v, ok := vc.P.globalInit(g); ok {
